@@ -567,6 +567,18 @@ fn fam_random<const N: usize>(ctx: &Ctx) {
                 let script = vec![wd, wd2, wd, wd2, 5, 5, 5, 5];
                 l.cases += 1;
                 l.form("ConstMontyForm::try_random");
+                // same sampler as Uint::random_mod: value and stream position must coincide (a reduce-after-draw
+                // implementation stays in range but is biased and consumes the stream differently)
+                {
+                    let (mut ra, mut rb) = (ScriptRng::from_words(&script), ScriptRng::from_words(&script));
+                    let a = guard(|| ConstMontyForm::<R64, 1>::try_random(&mut ra).map(|v| v.retrieve().as_words()[0]).map_err(|_| ()));
+                    let nz = NonZero::new(Uint::<1>::from_u64(251)).unwrap();
+                    let b = guard(|| Uint::<1>::try_random_mod(&mut rb, &nz).map(|v| v.as_words()[0]).map_err(|_| ()));
+                    l.form("ConstMontyForm::try_random ~ Uint::try_random_mod");
+                    if a != b || ra.pos != rb.pos {
+                        fail(l, fam, "ConstMontyForm<R64>::try_random ~ Uint::try_random_mod", "same_sampler", "U64", vec![format!("script={}", hex(&script))], format!("{b:?} @ {}", rb.pos), format!("{a:?} @ {}", ra.pos), a.is_err());
+                    }
+                }
                 match guard(|| ConstMontyForm::<R64, 1>::try_random(&mut ScriptRng::from_words(&script))) {
                     Ok(Ok(v)) if v.retrieve().as_words()[0] < 251 => {}
                     other => fail(l, fam, "ConstMontyForm<R64>::try_random", "range", "U64", vec![format!("script={}", hex(&script))], "< 251".into(), format!("{:?}", other.map(|r| r.map(|v| v.retrieve()))), false),
